@@ -58,7 +58,7 @@ Lemma mem_read_agree st mv m a :
   mem_read nl st m a = sim_mem_read nl dflt mv m a.
 Proof.
   intros H. unfold mem_read, sim_mem_read.
-  destruct (find_mem (mems nl) m) as [mm|]; [destruct (mrom mm)|]; auto.
+  destruct (find_mem (mems nl) m) as [mm|]; [destruct (mrom mm)|]; rewrite ?sx_mem_get_spec; auto.
 Qed.
 
 Lemma argvals_agree rdy v v' n :
@@ -105,36 +105,38 @@ Proof.
     destruct (nargs n) as [|a0 [|a1 [|a2 [|a3 rest]]]] eqn:Eargs; try discriminate Har;
     cbn [map op_spec simple_func] in *;
     eexists; split; [reflexivity|]; split;
-    [ rewrite sanitize_mod by assumption; reflexivity | apply mod_range; assumption ]).
+    [ rewrite sx_sanitize_spec; rewrite sanitize_mod by assumption; reflexivity
+    | apply mod_range; assumption ]).
   - (* OpNot *)
     unfold argvals in *; unfold op_ok in Hop; rewrite Eop in Hop.
     destruct (nargs n) as [|a0 [|a1 rest]] eqn:Eargs; try discriminate Har.
     cbn [map op_spec simple_func] in *.
     eexists; split; [reflexivity|]; split; [|apply mod_range; assumption].
     f_equal. unfold arg in Hop. rewrite Eargs in Hop. simpl in Hop.
-    apply not_correct. lia.
+    rewrite sx_sanitize_spec. apply not_correct. lia.
   - (* OpNand *)
     unfold argvals in *; unfold op_ok in Hop; rewrite Eop in Hop.
     destruct (nargs n) as [|a0 [|a1 [|a2 rest]]] eqn:Eargs; try discriminate Har.
     cbn [map op_spec simple_func] in *.
     eexists; split; [reflexivity|]; split; [|apply mod_range; assumption].
     f_equal. unfold arg in Hop. rewrite Eargs in Hop. simpl in Hop.
-    apply not_correct. lia.
+    rewrite sx_sanitize_spec. apply not_correct. lia.
   - (* OpConcat *)
     eexists; split; [reflexivity|]; split; [|apply mod_range; assumption].
-    f_equal. rewrite sanitize_mod by assumption.
+    f_equal. rewrite sx_sanitize_spec. rewrite sanitize_mod by assumption.
     rewrite sim_concat_spec by assumption. reflexivity.
   - (* OpSelect *)
     unfold argvals in *; unfold op_ok in Hop; rewrite Eop in Hop.
     destruct (nargs n) as [|a0 [|a1 rest]] eqn:Eargs; try discriminate Har.
     cbn [map op_spec] in *.
     eexists; split; [reflexivity|]; split; [|apply mod_range; assumption].
-    f_equal. unfold arg. rewrite Eargs. cbn [nth].
-    rewrite sanitize_mod by assumption. rewrite sim_select_spec; [reflexivity|].
+    f_equal. rewrite sx_select_src_arg_spec. unfold arg. rewrite Eargs. cbn [nth].
+    rewrite sx_sanitize_spec. rewrite sanitize_mod by assumption. rewrite sim_select_spec; [reflexivity|].
     intros i Hi. rewrite forallb_forall in Hop. specialize (Hop i Hi). lia.
   - (* OpMemRd *)
     eexists; split; [reflexivity|]; split; [|apply mod_range; assumption].
-    f_equal. rewrite sanitize_mod by assumption.
+    f_equal. rewrite sx_mem_read_addr_arg_spec.
+    rewrite sx_sanitize_spec. rewrite sanitize_mod by assumption.
     assert (Ha0 : v (arg n 0) = v' (arg n 0)).
     { apply HA. apply arg0_in; [assumption|].
       simpl in Har. apply Nat.eqb_eq in Har. lia. }
@@ -204,7 +206,7 @@ Proof.
   induction ns as [|n rest IH]; intros rg rv Hv Heq r; simpl; [apply Heq|].
   apply IH; [intros; apply Hv; [right|]; assumption|].
   intros r'. unfold regnext_spec, reg_update. destruct (nop n) eqn:E; try apply Heq.
-  rewrite sanitize_mod by apply width_nonneg.
+  rewrite sx_reg_capture_spec. rewrite sanitize_mod by apply width_nonneg.
   rewrite (Hv n (or_introl eq_refl) E). unfold upd. destruct (r' =? ndest n); [reflexivity|apply Heq].
 Qed.
 
@@ -229,7 +231,8 @@ Proof.
   apply IH; [intros; eapply Hv; [right|]; eassumption|].
   intros m' a'. unfold write_spec, mem_update. destruct (nop n) eqn:E; try apply Heq.
   destruct (Hv n m0 (or_introl eq_refl) E) as [H0 [H1 H2]]. rewrite <- H0, <- H1, <- H2.
-  destruct (v (arg n 2) =? 0); [apply Heq|].
+  cbv zeta. rewrite sx_mem_write_cond_spec, sx_mem_write_addr_spec, sx_mem_write_data_spec.
+  destruct (v (arg n 2) =? 0); cbn [negb]; [apply Heq|].
   unfold upd. destruct (m' =? m0) eqn:Em; [|apply Heq].
   unfold assoc_d, dict_set. simpl. rewrite (Z.eqb_sym a').
   destruct (v (arg n 0) =? a') eqn:Ea; [reflexivity|].
